@@ -277,3 +277,67 @@ example : (match iterMsgs true Generated.msgTables rootPath 30
   decide +kernel
 
 end C09
+
+/-! ### … and what the consumer of `Binary.marshal` sees of it -/
+
+namespace C09
+
+/-- the byte pump on what a run shows (outcome, final position, trace); a stream decode that completes returns no value -/
+def pumpP (x : List Byte) (p : Except (Err × Nat × List (Nat × Event)) (Nat × List (Nat × Event))) : Run :=
+  match p with
+  | .ok (pos, out) =>
+    let pe := pumpEvents true x.length out [] none
+    ⟨pe.1, if pe.2.2 then .silent else pumpOutcome x pos (.ok .none), pe.2.1⟩
+  | .error (e, pos, out) =>
+    let pe := pumpEvents true x.length out [] none
+    ⟨pe.1, if pe.2.2 then .silent else pumpOutcome x pos (.error e), pe.2.1⟩
+
+theorem decodeStream_none (abort : Bool) (tb : MsgTables) (path : Path) :
+    ∀ (fuel : Nat) (s : St) (v : Val) (t : St), decodeStream abort tb path fuel s = .ok (v, t) → v = .none := by
+  intro fuel
+  induction fuel with
+  | zero => intro s v t h; simp [decodeStream, crash] at h
+  | succ n ih =>
+    intro s v t h
+    rw [decodeStream] at h
+    split at h
+    · simp only [Except.ok.injEq, Prod.mk.injEq] at h; exact h.1.symm
+    · cases hc : decodeCommand abort tb path s with
+      | error e => rw [hc] at h; simp [R.bind] at h
+      | ok ct =>
+        obtain ⟨cmd, s1⟩ := ct
+        rw [hc] at h
+        simp only [R.bind_ok] at h
+        split at h
+        · simp [crash] at h
+        · split at h
+          · simp only [Except.ok.injEq, Prod.mk.injEq] at h; exact h.1.symm
+          · cases hr : decodeResponse abort tb ((objField cmd "commandCode").bind vInt) _ path s1 with
+            | error e => rw [hr] at h; simp [R.bind] at h
+            | ok rt =>
+              obtain ⟨rv, s2⟩ := rt
+              rw [hr] at h
+              simp only [R.bind_ok] at h
+              exact ih _ _ _ h
+
+/-- **what `Binary.marshal` shows for EVERY stream input, either mode**: the byte pump applied to the iteration of the messages' own
+decodes — events with their pull counts, outcome (clean end, depleted, an error of a message moved to where it stands), command code -/
+theorem c09_every_stream_run (abort : Bool) (x : List Byte) :
+    marshalRun abort Generated.msgTables .stream x = pumpP x (iterMsgs abort Generated.msgTables rootPath (x.length + 1) x 0 []) := by
+  rw [← c09_every_stream]
+  unfold marshalRun pump pumpP projR
+  cases h : runWalker abort Generated.msgTables .stream x with
+  | error es =>
+    obtain ⟨e, s⟩ := es
+    simp only [stOf, resOf, Top.isStream]
+    by_cases hb : (pumpEvents true x.length s.out [] none).2.2 = true <;> simp [hb]
+  | ok vs =>
+    obtain ⟨v, s⟩ := vs
+    have hv : v = .none := by
+      unfold runWalker at h
+      exact decodeStream_none abort Generated.msgTables rootPath _ _ _ _ h
+    subst hv
+    simp only [stOf, resOf, Top.isStream]
+    by_cases hb : (pumpEvents true x.length s.out [] none).2.2 = true <;> simp [hb]
+
+end C09
